@@ -65,19 +65,23 @@ def gsub_groups(ctx, shim, r, nfonts, per_font, types=(1, 2, 3, 4, 5, 6, 8)):
     """fonts from random recipes; the plan's lookup list is taken from the crate (planinfo) and handed to the
     model together with the flattened recipe; both then run GSUB on the same injected buffers."""
     fonts, g1 = [], []
-    for i in range(nfonts):
-        rec = gsubgen.rand_recipe(r, types=types)
-        feats = gsubgen.user_features(r, rec)
+    seeds = load_corpus()
+    for i in range(len(seeds) + nfonts):
+        if i < len(seeds):
+            rec, feats = seeds[i]["recipe"], seeds[i].get("feats", "-")
+        else:
+            rec = gsubgen.rand_recipe(r, types=types)
+            feats = gsubgen.user_features(r, rec)
         try:
             hexf = fontbuild.hexfont(rec)
         except fontbuild.FontBuildError:
             continue
         fid = f"G{i}"
-        fonts.append((fid, rec, feats, hexf))
+        fonts.append((fid, rec, feats, hexf, seeds[i].get("texts") if i < len(seeds) else None))
         g1.append([f"font {fid} {hexf}", f"planinfo {fid} l DFLT - {feats}"])
     o1 = vlib.run_groups(shim, g1)
     groups = []
-    for (fid, rec, feats, hexf), o in zip(fonts, o1):
+    for (fid, rec, feats, hexf, texts), o in zip(fonts, o1):
         if o[0] != "ok" or not o[1].startswith("ok"):
             ctx.violation("generated GSUB font rejected or plan failed", {"stage": "search", "stream": "gsub-interp",
                           "recipe": rec, "observed": o})
@@ -90,11 +94,45 @@ def gsub_groups(ctx, shim, r, nfonts, per_font, types=(1, 2, 3, 4, 5, 6, 8)):
             mt = str(len(ms)) + " " + " ".join(" ".join(m[1:]) for m in ms)
         ft = gsubgen.flatten(rec)
         lines = [f"font {fid} {hexf}"]
+        for t in texts or []:
+            k = len(t)
+            info = [(g, 0xFFFFFFF8, i, 0, 7) for i, g in enumerate(t)]
+            st = {"L": 0, "F": 0, "M": max(64 * k, 16384), "O": max(1024 * k, 16384), "h": 0, "s": 0, "i": 0, "n": k,
+                  "o": 0, "I": info, "U": [(0, 0, 0, 0, 0)] * k}
+            lines.append(f"gsub {fid} l DFLT - {feats} 1 FONT {ft} MAPS {mt} BUF {bufgen.state_str(st)}")
         for _ in range(per_font):
             st = gsubgen.rand_buffer(r, rec)
             lines.append(f"gsub {fid} l DFLT - {feats} 1 FONT {ft} MAPS {mt} BUF {bufgen.state_str(st)}")
         groups.append(lines)
     return groups
+
+
+def load_corpus():
+    """minimised past failures (corpus/C06/*.json) run first"""
+    import json, os, glob
+    out = []
+    for f in sorted(glob.glob(os.path.join(vlib.ROOT, "corpus", "C06", "*.json"))):
+        d = json.load(open(f))
+        # JSON has lists where the recipe format wants tuples: fontbuild accepts both
+        out.append(d)
+    return out
+
+
+def gsub_panic_search(ctx, shim, groups):
+    """oracle on the crate alone: GSUB on a well-formed font must not panic"""
+    outs = vlib.run_groups(shim, groups, timeout=300)
+    n = bad = 0
+    for g, o in zip(groups, outs):
+        for ln, x in zip(g[1:], o[1:]):
+            n += 1
+            if x.startswith("panic") or x.startswith("abort") or x == "timeout":
+                bad += 1
+                if bad <= 3:
+                    ctx.violation(f"GSUB application on a well-formed generated font does not return normally: {x[:160]}",
+                                  {"stage": "search", "stream": "gsub-total", "font_line": g[0], "request": ln, "observed": x})
+    ctx.note_search("gsub-total", n, n, failures=bad,
+                    rule="every gsub-interp request (well-formed random GSUB/GDEF recipes incl. self-recursive and deleting "
+                         "nested lookups, corpus seeds first) must return normally on the crate")
 
 
 def gsub_classify(ln, out):
@@ -130,6 +168,7 @@ def run(ctx):
     ctx.correspond("buf-walks", lines=walks(ctx.rng("walks"), ctx.budget(20000, 300000)), classify=classify, canon=canon)
     zipper_search(ctx, shim, ctx.rng("zipper"), ctx.budget(20000, 300000))
     groups = gsub_groups(ctx, shim, ctx.rng("gsub"), ctx.budget(300, 6000), 8)
+    gsub_panic_search(ctx, shim, groups)
     ctx.correspond("gsub-interp", groups=groups, classify=gsub_classify, canon=canon,
                    only=lambda ln: ln.startswith("gsub "))
 
